@@ -6,7 +6,7 @@ from ..runner import Case, Property
 
 class C04(Property):
     id = "C04"
-    lean_module = "RosuModel.Props.C04All"   # imports Props/C04Slider.lean and Props/C04Timing.lean (which import Props/C04.lean); all in namespace Rosu.C04
+    lean_module = "RosuModel.Props.C04All"   # imports Props/C04Slider.lean, Props/C04Timing.lean (which import Props/C04.lean), Props/C04File.lean and Props/C04Toy.lean; all in namespace Rosu.C04
     namespace = "Rosu.C04"
     design_ref = "5.4"
     required_theorems = ["headers_recognised", "encode_shape", "block_starts_with_header", "encoded_text_lines", "version_line_parses",
@@ -16,7 +16,9 @@ class C04(Property):
                          "hitobject_lines_accepted_partial", "slider_line_accepted", "slider_path_text_clean", "hitobject_lines_accepted",
                          "slider_line_leaves_clean_buffer", "hitobjects_block_accepted",
                          "timing_block_lines", "decoded_control_points_in_limits", "timing_block_shape", "timing_lines_accepted", "record_and_timing_blocks_accepted",
-                         "sample_timing_rep", "sample_records_rep", "sample_timing_text", "sample_encodes"]
+                         "sample_timing_rep", "sample_records_rep", "sample_timing_text", "sample_encodes",
+                         "record_calls_accepted", "encoded_file_accepted", "encoded_file_sections_accepted",
+                         "toy_collect", "toyMap_rep", "toyMap_timing_text", "toyMap_objects_text", "toyMap_lines"]
     partial_theorems = {
         "record_lines_accepted_editor / _difficulty / _general / _events, record_blocks_accepted_and_recovered":
             "law-dependent: proved for every number codec satisfying CodecLaws (+ IntPrintLaw for AudioLeadIn), shown satisfiable by Lemmas/ToyCodec.lean; CodecLaws is now also a theorem "
@@ -48,9 +50,21 @@ class C04(Property):
             "laws; that the codec represents those finite values, and that −100/v stays within the beat-length limits for v in the clamp range, are not theorems here. The clause a decoded map can violate is the one about sample points AFTER collect_samples: they sit at computed times (start+duration of spinners/holds/sliders, node "
             "times from slider_events) which may be non-finite or beyond the limit; then the line is rejected. Not assumed away: the implementation-level `lines` oracle checks every "
             "line of every encoding. timing_block_lines (shape and provenance of every line) needs no law",
+        "encoded_file_accepted / encoded_file_sections_accepted":
+            "the file-level C04 statement with NO shape assumption left (Props/C04File.lean), law-dependent (MapLaws = CodecLaws for both float types + IntPrintLaw + SliderRt.CoordLaws; toy "
+            "instance ZC.mapLaws) and stated for maps satisfying RepMap (Lemmas/RepMap.lean: RtFile.RepRecords + RtTiming.RepTimingMap + every hit object SliderRt.RepObject; non-vacuity: "
+            "C04.toyMap of Props/C04Toy.lean — toy codec, mania, two timing points, three inherited lines, a circle, a slider with a two-segment path, a spinner, a hold note; toyMap_lines "
+            "evaluates its encoding to the version line plus eight blocks of explicit lines). If encode m = ok t then: t is the version line plus the eight blocks in canonical order, the "
+            "[TimingPoints] block being the lines of the collected control points and the [HitObjects] block one line per object; read back from its UTF-8 bytes by ANY decoder, reading succeeds "
+            "and the framing driver makes exactly the parser calls recordCalls m T H — every non-blank non-header line of every block, end-trimmed, to the parser of its own section, in file "
+            "order (decodeBytes recorder: the call log is exactly that list); EVERY one of those calls returns Ok when the Beatmap decoder runs them (FileRt.CallsAccepted: each call judged in "
+            "the state the preceding calls left; stepAccepts is the Ok flag of the parser BeatmapState.step delegates to); counts: as many hit objects pushed as written, breaks and the two "
+            "colour lists of the lengths written, the timing-point state is parse_timing_points folded over exactly the lines written. encoded_file_sections_accepted reads the acceptance per "
+            "section on the model's parsers alone (each record line is neither header nor skipped and its parser accepts it in ANY state). The count of timing POINTS stored needs the "
+            "decoder's grouping arithmetic to be exact: C02.roundtrip_rep_counts (EpsLaws / GroupLaws)",
         "list_block_lines_accepted_statement (unconditional)":
-            "NOT a theorem: that every object (RepObject) and every collected control point (RepTimingMap) of a DECODED map is representable, which would discharge the hypotheses of "
-            "hitobjects_block_accepted and timing_lines_accepted for every decoded map. It is false as stated (findings F20; computed sample-point times can be non-finite) and is evaluated on "
+            "NOT a theorem: that every object (RepObject) and every collected control point (RepTimingMap) of a DECODED map is representable (i.e. that a decoded map satisfies RepMap), which would "
+            "discharge the hypothesis of encoded_file_accepted for every decoded map. It is false as stated (findings F20; computed sample-point times can be non-finite) and is evaluated on "
             "the implementation by the `lines` oracle (a wrapping decoder logs every parser call of the re-decode: no line lost, none rejected, same number of objects / timing points / "
             "breaks / colours) and by the char-for-char encoder correspondence",
     }
@@ -65,10 +79,13 @@ class C04(Property):
                   "per non-redundant group (timing_block_lines, no law); for a representable map and a lawful codec each line is neither a header nor skipped and is accepted by "
                   "parse_timing_points in any decoder state, applied as exactly the values written (timing_block_shape, timing_lines_accepted); file level: "
                   "record_and_timing_blocks_accepted — the re-decode hands exactly the block's lines, in order, to parse_timing_points and all are accepted. "
-                  "That every object / collected control point of a decoded map is representable is not a theorem (F20). "
+                  "All parts composed, no shape assumption left: encoded_file_accepted — for a map satisfying RepMap (record sections, collected control points and every hit object representable) "
+                  "the encoded text is the version line plus the eight blocks, and decoding it (bytes, reader, framing) hands every non-blank non-header line of every block to its own section's "
+                  "parser, in order, and every call returns Ok; as many hit objects / breaks / colours are pushed as written (non-vacuity: C04.toyMap, encoding evaluated). "
+                  "That a decoded map satisfies RepMap is not a theorem (false in general: F17, F18, F20, non-finite computed sample-point times). "
                   "The encoder model is compared character for character with Beatmap::encode_to_string on every generated and bundled map; the property itself is evaluated on the "
                   "real code for every line of every encoding (oracle `lines`).")
-    technique = "Lean 4 proof (output shape, reader inversion, per-line acceptance and dispatch for the six record sections and the [TimingPoints] block; law-dependent where floats are printed) + char-for-char encoder correspondence + per-line acceptance oracle on the implementation"
+    technique = "Lean 4 proof (output shape, reader inversion, per-line acceptance and dispatch for all eight blocks, composed into one file-level statement for representable maps; law-dependent where floats are printed) + char-for-char encoder correspondence + per-line acceptance oracle on the implementation"
     trusted_base = [
         "Lean 4.33.0 kernel; axioms ⊆ {propext, Classical.choice, Quot.sound} per #print axioms",
         "hand-written Model/Encode.lean (+ decode model) tied to /repo by the `enc` differential: identical text on every case of this run",
